@@ -17,12 +17,12 @@ func init() {
 			"is the result of the RFC current-age function; each return path applies exactly one status of the right class (from-store: HIT/STALE/REVALIDATED on the stored " +
 			"header, origin: MISS/BYPASS on the origin header); REVALIDATED only under status==304; HIT unreachable when the staleness flag is set; the legacy marker is " +
 			"written or cleared on every path; the synthesised 504 carries BYPASS and no legacy marker; Set (not Add) is used.",
-		NotDecided: "numeric Age (+-1 s); truthfulness of HIT when max-stale relaxed the staleness flag.",
+		NotDecided:  "numeric Age (+-1 s); truthfulness of HIT when max-stale relaxed the staleness flag.",
 		Assumptions: []string{"R-FRESH (checked)", "status variables are written only in the package initialiser (checked under C16.4)"},
 		Rules: []Rule{
 			{ID: "C11.0", Desc: "shared premises", Run: func(c *Ctx) { ruleRFRESH(c, "C11.0") }, MinSites: 1},
 			{ID: "C11.1", Desc: "Age generated on every unvalidated serve", Run: ruleC11_1, MinSites: 2},
-			{ID: "C11.2", Desc: "Age provenance: RFC current age", Run: ruleC11_2, MinSites: 2},
+			{ID: "C11.2", Desc: "Age provenance: RFC current age", Run: func(c *Ctx) { ruleC11_2(c); ruleResidentTime(c, "C11.2") }, MinSites: 2},
 			{ID: "C11.3", Desc: "status class per return, exactly one status", Run: ruleC11_3, MinSites: 5},
 			{ID: "C11.4", Desc: "HIT means fresh", Run: ruleC11_4, MinSites: 1},
 			{ID: "C11.5", Desc: "legacy marker written or cleared on every path", Run: ruleC11_5, MinSites: 1},
@@ -261,7 +261,16 @@ func ruleC11_2(c *Ctx) {
 	if m == 0 {
 		c.Undecided("C11.2", "vacuity-calls", "an Age generation call exists", "none reachable from RoundTrip")
 	}
-	// (c) Age generation itself: value = age.Value + clock.Since(age.Timestamp), clamped at 0, via Header.Set("Age")
+	ruleAgeEmission(c, "C11.2")
+}
+
+// ruleAgeEmission (C11.2 / C13.8): Age generation itself: value = age.Value + clock.Since(age.Timestamp), clamped at 0,
+// via Header.Set("Age"). The stale-if-error path emits the Age only after the failed validation attempt, so dropping
+// the elapsed time under-reports the age by the whole duration of that attempt.
+func ruleAgeEmission(c *Ctx, rule string) {
+	if !c.Need(rule, "ageSet") {
+		return
+	}
 	as := c.A.F("ageSet")
 	deps := map[string]bool{}
 	instrsOf(as, func(in ssa.Instruction) {
@@ -296,9 +305,9 @@ func ruleC11_2(c *Ctx) {
 	sort.Strings(ks)
 	desc := "the emitted Age is the recorded age plus the time since it was computed, clamped at 0"
 	if deps["since"] && deps["max"] && len(ks) >= 4 {
-		c.Pass("C11.2", "age-emission", desc, c.P.ShortName(as)+": "+strings.Join(ks, ","))
+		c.Pass(rule, "age-emission", desc, c.P.ShortName(as)+": "+strings.Join(ks, ","))
 	} else {
-		c.Fail("C11.2", "age-emission", desc, c.P.ShortName(as)+": emitted value depends only on "+strings.Join(ks, ","))
+		c.Fail(rule, "age-emission", desc, c.P.ShortName(as)+": emitted value depends only on "+strings.Join(ks, ","))
 	}
 }
 
